@@ -387,9 +387,9 @@ func binary_PutUvarint(b []byte, v uint64) int {
 }
 
 var ruleText = "Per reactor (consensus manager incl. consensus state, block sync incl. scheduler/processor, transaction pool, evidence, peer exchange) and for the MConnection framing: " +
-	"the valid message of every type (round-trip oracle) and EVERY single-field mutation of its protobuf tree (field absent / duplicated / wrong wire type; varints {0,1,2,3,4,5,63,64,65,10000,10001,65535,65536,65537,2^31-1,2^31,2^32-1,2^32,2^63-1,2^63,2^64-1}; " +
+	"the valid message of every type (round-trip oracle) and EVERY single-field mutation of its protobuf tree (field absent / duplicated / wrong wire type; varints {0,1,2,3,4,5,63,64,65,10000,10001,65535,65536,65537,2^31-1,2^31,2^32-1,2^32,2^63-1,2^63,2^64-2,2^64-1}; " +
 	"byte fields of length {0,1,19,20,21,31,32,33,64,65,66,65536,65537} plus original-1/+1 byte/bit-flipped/all-0/all-ff; sub-messages empty/garbage/unknown-field; repeated fields x{0,2,3,10001}; bit arrays bits{0,1,4,5,64,65,10000,10001,2^31,2^32-1,2^63,2^64-1} x elems{0,1,2,157}); " +
-	"every pair of (reduced-set) mutations on NewRoundStep and VoteSetBits; the full product of boundary values {0, limit-1, limit, limit+1, limit+2, 2^31, max} over each group of semantically coupled fields whose validation is split over several checks (BlockPart part.index x proof.index x proof.total around the part-set total; Vote validator_index x validator_address, raw and signed; Proposal round x pol_round, raw and signed; NewValidBlock part_set_header.total x block_parts bits x is_commit; HasVote index x type x round and VoteSetBits votes bits x type x round around the validator count), in every node state and both tiers; every truncation and every single-byte substitution (alphabet 00 01 08 7f 80 ff) of each valid encoding; every 1- and 2-byte string; " +
+	"every pair of (reduced-set) mutations on NewRoundStep and VoteSetBits; the full product of boundary values {0, limit-1, limit, limit+1, limit+2, 2^31, max} over each group of semantically coupled fields whose validation is split over several checks (BlockPart part.index x proof.index x proof.total around the part-set total; Vote validator_index x validator_address, raw and signed; Proposal round x pol_round, raw and signed; NewValidBlock part_set_header.total x block_parts bits x is_commit; HasVote index x type x round and VoteSetBits votes bits x type x round around the validator count; NewRoundStep height {0,1,2,h-2..h+2,2^63,2^64-2,2^64-1} x round x step x last_commit_round {0,1,max}), and claimed-position sequences (a NewRoundStep claiming height {h-2..h+2, 2^63, 2^64-2, 2^64-1} with the last_commit_round that passes ValidateHeight, then NewRoundStep / NewValidBlock / HasVote / VoteSetBits / VoteSetMaj23 / ProposalPOL for the claimed height +-1), each followed by the real gossipData / gossipVotes / queryMaj23 routines on the resulting peer state (catch-up branches against the node's real block store, stored commit present and absent), in every node state plus a node at height 3, both tiers; every truncation and every single-byte substitution (alphabet 00 01 08 7f 80 ff) of each valid encoding; every 1- and 2-byte string; " +
 	"votes/proposals/evidence mutated before signing (the peer is a validator); every single-field mutation of the proposed block by the round's proposer, raw and with header hashes recomputed; " +
 	"delivered on every channel id of the reactor plus a foreign id, in node states {wait-sync, NewHeight, Propose, Prevote (nil), Prevote (proposal and block received), PrevoteWait, Precommit, Commit-waiting-for-parts at height 1; NewHeight, Propose, Commit-waiting at height 2} x peer {fresh, known (announced the node's round, gossiped to), removed}. " +
 	"Thorough tier: pairs on every consensus message type. Quick tier: pairs, byte-level cases and foreign channels in 3 of the 11 states; strings the decoder rejects (they end before any state is read) in 2 states and from fresh peers only. " +
